@@ -246,6 +246,7 @@ def run(vc):
             check(poly, "element", "et", element_type, "poly_cost.element")
             check(pwl, "element", "et", element_type, "pwl_cost.element")
         vc.explore(f"reindex_elements[{element_type}]", h_re, max_paths=200)
+    run_select_cost(vc)
     _standin(vc)
 
 
@@ -283,6 +284,52 @@ def _standin(vc):
               "reference column), t3 switch, costs on four element types (two sharing an element number), measurements; "
               "the listed known finding (result table index after reindex_elements) is excluded",
         script="from replaylib.references import main\nmain()\n"))
+
+
+COST_TYPES = ["gen", "sgen", "ext_grid", "load", "storage", "dcline"]
+
+
+def run_select_cost(vc):
+    """_select_cost_df (select_subnet): a cost row is kept iff its element is in the subnet *as an element of the row's own element type*
+    (two element types can carry the same element number). Series.unique is summarised by the list of all element types that can carry
+    costs: iterating over types that do not occur selects nothing."""
+    from pyvc.arrays import FilteredTable
+    from pyvc.lib_np import isin as np_isin
+    for cost_type in ("poly_cost", "pwl_cost"):
+        def h(p, cost_type=cost_type):
+            it = p.it
+            cost = pm.table(cost_type, {"element": I, "et": PV})
+            c = cost.cols
+            p.assume(z3.Or(*[c["et"].z == to_pv(t) for t in COST_TYPES]))
+            subs = {t: pm.table(f"subnet.{t}", {"bus": I}) for t in COST_TYPES}
+            net = netmodel.Net({cost_type: cost}, strict=True)
+            p2 = netmodel.Net(dict(subs), strict=False)
+            # Series.unique(): the distinct element types of the cost table (assumed contract: a subset of the types that can carry costs)
+            from pyvc import lib_np
+            orig = lib_np.arr_attr
+
+            def arr_attr(it_, a, name):
+                if name == "unique" and a.space is cost.space:
+                    return Native(lambda it__: list(COST_TYPES), name="unique")
+                return orig(it_, a, name)
+            lib_np.arr_attr = arr_attr
+            try:
+                out = p.call(f"{GM}:_select_cost_df", net, p2, cost_type)
+            finally:
+                lib_np.arr_attr = orig
+            if out.raised:
+                raise EngineError(f"_select_cost_df raised {out.exc!r}")
+            got = p2.fields.raw(cost_type)
+            ok = isinstance(got, FilteredTable) and got.table is cost
+            p.prove(f"select[{cost_type}]: the subnet gets a selection of the rows of the cost table", ok, meta=dict(part="select-cost"))
+            if not ok:
+                return
+            kept = got.mask if got.mask is not True else z3.BoolVal(True)
+            for t in COST_TYPES:
+                member = truth_z(np_isin(it, Arr(cost.space, c["element"]), Arr(subs[t].space, subs[t].index_e)).e)
+                p.prove(f"select[{cost_type}]: a {t} cost row is kept iff that {t} is in the subnet", z3.Implies(c["et"].z == to_pv(t), kept == member),
+                        meta=dict(part="select-cost"), note="membership in the subnet's table of the row's own element type")
+        vc.explore(f"_select_cost_df[{cost_type}]", h, max_paths=40)
 
 
 def classify(ob, model):
